@@ -13,10 +13,11 @@ namespace AY
 
 inductive XStep where
   | done (r : EvR Val)
-  | next (t : String)
+  | next (t : String) (st : EvSt)
 
-/-- one iteration of `xrefLoop`: a final result or the text of the next reference (a lookup that
-    finds a node leaves the state unchanged, `ctxGetNode_ok_inv`) -/
+/-- one iteration of `xrefLoop`: a final result or the text of the next reference and the state to
+    continue with (a lookup that finds a node leaves the state unchanged, `ctxGetNode_ok_inv`; an
+    unsafe reference that is followed is an error in strict mode and bumps the counter otherwise) -/
 def xrefStep (rec : Rec) (root : Node) (rs : Bool) (self : Path) (cur : String)
     (chain : List String) (st : EvSt) : XStep :=
   match splitPath cur with
@@ -29,7 +30,10 @@ def xrefStep (rec : Rec) (root : Node) (rs : Bool) (self : Path) (cur : String)
       if chain.contains cur || tp = self then .done (.error .eval)
       else
         match n with
-        | .leaf _ (.xref next) => .next next
+        | .leaf f (.xref next) =>
+          if !eSafe f then
+            if rs then .done (.error .unsafeE) else .next next (seeTaint st)
+          else .next next st
         | _ => .done (rec rs n tp st)
 
 theorem xrefLoop_succ (rec : Rec) (root : Node) (rs : Bool) (self : Path) (fuel : Nat) (cur : String)
@@ -37,7 +41,7 @@ theorem xrefLoop_succ (rec : Rec) (root : Node) (rs : Bool) (self : Path) (fuel 
     xrefLoop rec root rs self (fuel + 1) cur chain st =
       match xrefStep rec root rs self cur chain st with
       | .done r => r
-      | .next t => xrefLoop rec root rs self fuel t (chain ++ [cur]) st := by
+      | .next t s1 => xrefLoop rec root rs self fuel t (chain ++ [cur]) s1 := by
   rw [xrefLoop]
   unfold xrefStep
   cases splitPath cur with
@@ -60,13 +64,20 @@ theorem xrefLoop_succ (rec : Rec) (root : Node) (rs : Bool) (self : Path) (fuel 
         split
         · rfl
         · cases n with
-          | leaf f lk => cases lk <;> rfl
+          | leaf f lk =>
+            cases lk with
+            | xref next =>
+              simp only
+              split
+              · split <;> rfl
+              · rfl
+            | _ => rfl
           | comp f k cs => rfl
 
 /-- what a continuing iteration tells -/
 theorem xrefStep_next {rec : Rec} {root : Node} {rs : Bool} {self : Path} {cur : String}
-    {chain : List String} {st : EvSt} {t : String}
-    (h : xrefStep rec root rs self cur chain st = .next t) :
+    {chain : List String} {st s1 : EvSt} {t : String}
+    (h : xrefStep rec root rs self cur chain st = .next t s1) :
     cur ∉ chain ∧ ∃ tp f, splitPath cur = some tp ∧ tp ≠ self ∧ plookup tp st.cache = none ∧
       getNode root tp = some (.leaf f (.xref t)) := by
   unfold xrefStep at h
@@ -83,11 +94,50 @@ theorem xrefStep_next {rec : Rec} {root : Node} {rs : Bool} {self : Path} {cur :
         simp only [Bool.or_eq_true, List.contains_iff_mem, decide_eq_true_eq, not_or] at hc
         split at h
         · rename_i f nx
-          cases h
-          refine ⟨hc.1, tp, f, htp, hc.2, ?_⟩
-          rcases ctxGetNode_ok_inv hg with ⟨_, hn, _⟩ | ⟨n', hn, hnone, hn', _⟩
-          · cases hn
-          · cases hn; exact ⟨hnone, hn'⟩
+          have hres : plookup tp st.cache = none ∧ getNode root tp = some (.leaf f (.xref nx)) := by
+            rcases ctxGetNode_ok_inv hg with ⟨_, hn, _⟩ | ⟨n', hn, hnone, hn', _⟩
+            · cases hn
+            · cases hn; exact ⟨hnone, hn'⟩
+          split at h
+          · split at h
+            · cases h
+            · cases h; exact ⟨hc.1, tp, f, htp, hc.2, hres⟩
+          · cases h; exact ⟨hc.1, tp, f, htp, hc.2, hres⟩
+        · cases h
+
+/-- the state a continuing iteration goes on with: unchanged after a safe reference; after an unsafe
+    one (followed in non-strict mode only) the counter of unsafe content seen is bumped -/
+theorem xrefStep_next_state {rec : Rec} {root : Node} {rs : Bool} {self : Path} {cur : String}
+    {chain : List String} {st s1 : EvSt} {t : String}
+    (h : xrefStep rec root rs self cur chain st = .next t s1) :
+    ∃ tp f, splitPath cur = some tp ∧ getNode root tp = some (.leaf f (.xref t)) ∧
+      ((eSafe f = true ∧ s1 = st) ∨ (eSafe f = false ∧ rs = false ∧ s1 = seeTaint st)) := by
+  unfold xrefStep at h
+  split at h
+  · cases h
+  · rename_i tp htp
+    split at h
+    · cases h
+    · cases h
+    · rename_i n st1 hg
+      split at h
+      · cases h
+      · split at h
+        · rename_i f nx
+          have hres : getNode root tp = some (.leaf f (.xref nx)) := by
+            rcases ctxGetNode_ok_inv hg with ⟨_, hn, _⟩ | ⟨n', hn, _, hn', _⟩
+            · cases hn
+            · cases hn; exact hn'
+          split at h
+          · rename_i hs
+            split at h
+            · cases h
+            · rename_i hrs
+              cases h
+              exact ⟨tp, f, htp, hres, .inr ⟨by simpa using hs, by simpa using hrs, rfl⟩⟩
+          · rename_i hs
+            cases h
+            exact ⟨tp, f, htp, hres, .inl ⟨by simpa using hs, rfl⟩⟩
         · cases h
 
 theorem ctxGetNode_error {root : Node} {rs : Bool} {p : Path} {st : EvSt} {e : Err}
@@ -206,10 +256,10 @@ theorem xrefLoop_fuel_irrelevant (rec : Rec) (root : Node) (rs : Bool) (self : P
     rw [Nat.add_right_comm, xrefLoop_succ, xrefLoop_succ]
     cases hstep : xrefStep rec root rs self cur chain st with
     | done r => rfl
-    | next t =>
+    | next t s1 =>
       obtain ⟨hnc, tp, f, _, _, _, hg⟩ := xrefStep_next hstep
       simp only
-      apply xrefLoop_fuel_irrelevant rec root rs self M hM k fuel t (chain ++ [cur]) st
+      apply xrefLoop_fuel_irrelevant rec root rs self M hM k fuel t (chain ++ [cur]) s1
       · rw [List.nodup_append]
         refine ⟨hnd, by simp, ?_⟩
         intro a ha b hb
@@ -260,11 +310,14 @@ theorem xrefLoop_alias {root : Node} {w : World} {f : Nat} {rs : Bool} {self : P
   | fuel + 1, cur, chain, st, v, st', h => by
     rw [xrefLoop_succ] at h
     cases hstep : xrefStep (evalNodeF root w f) root rs self cur chain st with
-    | next t =>
+    | next t s1 =>
       rw [hstep] at h
       simp only at h
       obtain ⟨_, tp, fl, htp, _, hnone, hg⟩ := xrefStep_next hstep
-      obtain ⟨tp', ht', hv'⟩ := xrefLoop_alias fuel t _ st v st' h
+      obtain ⟨tp', ht', hv'⟩ := xrefLoop_alias fuel t _ s1 v st' h
+      have hcache : s1.cache = st.cache := by
+        obtain ⟨_, _, _, _, ⟨_, rfl⟩ | ⟨_, _, rfl⟩⟩ := xrefStep_next_state hstep <;> rfl
+      rw [hcache] at ht'
       refine ⟨tp', ?_, hv'⟩
       simp only [xrefTarget, htp, hnone, hg]
       exact ht'
@@ -292,7 +345,9 @@ theorem xrefLoop_alias {root : Node} {w : World} {f : Nat} {rs : Bool} {self : P
           split at hstep
           · cases hstep
           · split at hstep
-            · cases hstep
+            · split at hstep
+              · split at hstep <;> cases hstep
+              · cases hstep
             · rename_i hnx
               injection hstep with hres
               have hc := evalNodeF_cached hres
